@@ -1,4 +1,5 @@
 """C02 — certificate uniqueness: the re-proposal rule as decision tables and ingredient terms."""
+from . import common
 from engine import query as Q
 from engine.terms import show, subterms
 from engine.guards import Atom, Walker, field_path, chain, Inliner
@@ -267,7 +268,7 @@ def rule_proposer(ctx):
         for s in b["s"]:
             if s["k"] == "assign" and s["r"]["k"] == "agg" and s["r"].get("def", "").endswith("LeaderProposal"):
                 d = dict(T.rvalue(s["r"])[3])
-                okj = d.get("justification") in (("upvar", "justification"),)
+                okj = d.get("justification") is not None and common.is_p(d.get("justification"), common.pnames(f, "ProposalJustification"))
     ctx.ob(R, "proposal justification", okj, "LeaderProposal.justification is the justification argument" if okj else "the proposal does not carry the justification it was derived from", f.loc())
     wp = [c["bb"] for c in T.calls() if c["q"] == EM + "::wait_until_persisted"]
     cfg = ctx.cfg(f)
